@@ -140,6 +140,25 @@ def judge(ck, behs, recs, events, what, max_report=60):
     return bad
 
 
+NEEDED = {"enc": ["push:ok", "push:nobuf", "push:err", "term:ok", "term:nobuf", "term:err", "next:ok", "delete:ok", "delete:err",
+                  "grow:ok"],
+          "arr": ["push:ok", "term:ok", "next:ok", "delete:ok", "delete:err", "shift:ok", "front:any", "prepare:any"],
+          "dec": ["size:ok", "reset:ok", "call:msg", "call:more", "call:err", "call:nobuf", "feed:ok", "grant:ok"]}
+
+
+def vacuity(behs, what, notes):
+    """every action of the model with every class of answer occurs as the last step of an exported behaviour"""
+    cnt = {}
+    for beh in behs:
+        st = beh[-2] if what != "dec" else beh[-1]         # encoder behaviours end with the driver's xfin
+        key = "%s:%s" % (st["a"], (st.get("exp") or {}).get("ret"))
+        cnt[key] = cnt.get(key, 0) + 1
+    notes["model_steps_" + what] = cnt
+    dead = [k for k in NEEDED[what] if not cnt.get(k)]
+    if dead:
+        raise vlib.MachineryError("vacuous model (%s): never taken: %s" % (what, dead))
+
+
 def replay_a(ck, exe, behs, what, notes):
     """binding A for one exported model: equality with the design, Tier 1 (TLC) where they differ"""
     nmm = ndiv = nacc = faults = done = 0
@@ -226,8 +245,32 @@ def pushes(rng, beh, n, path, upto=None):
         cnt += 1
 
 
+def bulk_session(rng, i):
+    """array / queue path: the reader has taken most of a long earlier frame, a long message is pushed in one piece
+    (mpt_array_push then takes it in many installments while it enlarges the buffer)"""
+    kind = rng.choice(["cobs", "cobs_r", "zpe", "zpe_r", "cmd"])
+    path = rng.choice(["array", "array", "queue"])
+    n1 = rng.choice([300, 700, 1500])
+    base = rng.randrange(1, 200)
+    m1 = [1 + ((base + j * 7) % 255) for j in range(n1)]
+    m2 = [1 + ((base + j * 11) % 255) for j in range(rng.choice([200, 700, 1100, 2400]))]
+    if kind != "cmd" and rng.random() < 0.5:
+        step = rng.choice([3, 31, 254])
+        m2 = [0 if j % step == step - 1 else b for j, b in enumerate(m2)]
+    arg = {"kind": kind, "name": NAMES[kind], "m": 0, "dl": [0], "how": "-", "cap": 0, "path": path, "msg": m1}
+    beh = [{"a": "xinit", "arg": arg}, {"a": "push", "arg": {"k": n1}}, {"a": "fin", "arg": {"x": 0}},
+           {"a": "shift", "arg": {"n": rng.choice([n1, n1 - 40, n1 // 2, 130])}},
+           {"a": "next", "arg": {"msg": m2}}]
+    if rng.random() < 0.3:
+        beh.append({"a": "push", "arg": {"k": rng.choice([1, 63, 64, 65])}})
+    beh += [{"a": "push", "arg": {"k": len(m2)}}, {"a": "fin", "arg": {"x": 0}}, {"a": "xfin", "arg": {"x": 0}}]
+    return beh
+
+
 def session(rng, i):
     """several messages in one output, deletions of the message in progress and of finished ones, a reader"""
+    if i % 10 == 9:
+        return bulk_session(rng, i)
     fam = rng.choice(["cobs", "cobs", "cobs", "cmd", "text", "text", "raw"])
     arg = {"m": 0, "dl": [0], "how": "-", "cap": rng.choice([0, 0, 2, 16, 64, 600])}
     if fam == "cobs":
@@ -242,7 +285,7 @@ def session(rng, i):
     else:
         arg.update(kind="raw", path="array", dl=[])
     path = arg["path"]
-    if path == "array":
+    if path == "array" and fam != "cmd":
         arg["via"] = rng.choice([0, 0, 1, 2, 3])
 
     def message():
@@ -358,8 +401,9 @@ def dec_schedule(rng, i, frames):
         beh.append({"a": "call", "arg": {"seg": 0, "mis": rng.randrange(16)}})
         beh.append({"a": "grant", "arg": {"k": 8, "cond": 1}})
         beh.append({"a": "call", "arg": {"seg": 0, "mis": 0}})
-        beh.append({"a": "feed", "arg": {"data": stream[k:]}})
-        beh.append({"a": "size", "arg": {"n": len(stream) - k}})
+        if len(stream) > k:
+            beh.append({"a": "feed", "arg": {"data": stream[k:]}})
+            beh.append({"a": "size", "arg": {"n": len(stream) - k}})
         pos = len(stream)
         for _ in range(4):
             beh.append({"a": "call", "arg": {"seg": rng.choice([0, 2, 3]), "mis": rng.randrange(16)}})
@@ -430,8 +474,7 @@ def run_part(ck, tier):
     # 1. exhaustive model checks (started now, collected at the end) and behaviour export side by side
     pool = concurrent.futures.ThreadPoolExecutor(max_workers=8)
     w = max(vlib.NCPU // 4, 2)
-    fmc = [pool.submit(vlib.tlc, "MC_CodecOps", c, workers=w, tag="MC_CodecOps_" + c, coverage=(tier == "thorough"))
-           for c in cfg["mc"]]
+    fmc = [pool.submit(vlib.tlc, "MC_CodecOps", c, workers=w, tag="MC_CodecOps_" + c) for c in cfg["mc"]]
     fgen = [(what, pool.submit(vlib.tlc, "Gen_CodecOps", c, workers=3, tag="Gen_CodecOps_" + c)) for what, c in cfg["gen"]]
 
     # 2. binding A
@@ -445,6 +488,11 @@ def run_part(ck, tier):
         del gen
         if not behs:
             raise vlib.MachineryError("behaviour export empty (%s)" % what)
+        vacuity(behs, what, notes)
+        if what == "arr":
+            for i, beh in enumerate(behs):           # schedule choice: the pushed bytes handed over as a message of parts
+                if beh[0]["arg"].get("kind") != "cmd":   # (push(message) only says yes/no: not for offers that may be refused half way)
+                    beh[0]["arg"]["via"] = i % 4
         replay_a(ck, exe, behs, what, notes)
         for beh in behs:
             if nontrivial(beh):
@@ -495,17 +543,6 @@ def run_part(ck, tier):
     for c, f in zip(cfg["mc"], fmc):
         res = f.result()
         ck.add_tlc(res, "exhaustive " + c)
-        if tier == "thorough":
-            vac = {"MC_CodecOps_enc_t.cfg": ["XPush", "XTerm", "NextMsg", "Delete", "PushT", "TermT"],
-                   "MC_CodecOps_arr_t.cfg": ["Shift", "ShiftFront", "Prepare", "Delete", "PushR", "TermR"],
-                   "MC_CodecOps_dec_t.cfg": ["SizeQuery", "Reset"],
-                   "MC_CodecOps_size_t.cfg": ["SizeQuery"]}.get(c)
-            if vac:
-                saved = ck.notes.get("action_coverage")
-                c01.vacuity(ck, res, vac)
-                notes["action_coverage_" + c] = ck.notes.pop("action_coverage")
-                if saved is not None:
-                    ck.notes["action_coverage"] = saved
     pool.shutdown()
     ck.cov["samples"] = ck.cov.get("samples", []) + samples[:2]
     notes["rule"] = ("A: one behaviour per transition of the TLC state graphs of CodecOps (encoder sessions under the view "
